@@ -149,6 +149,27 @@ def check_case(run, case):
             digests[mode] = digest(path)
         finally:
             repo.drop_rules(name)
+    # the real CLI with --prefixcount on the prefixed rendering must give the same tree (argument plumbing of -e / --prefixcount)
+    if digests.get('prefixhex') is not None and rng.random() < 0.25:
+        sdir = repo.scratch()
+        tf = os.path.join(sdir, f'c19cli_{os.getpid()}.txt')
+        nm = f'c19cli_{os.getpid()}'
+        open(tf, 'wb').write(render(case, 'prefixhex', rng))
+        try:
+            out, err, rc, to = cli.run_cli('trainer.py', ['-r', nm, '-t', tf, '-e', enc, '--prefixcount', '-c', str(case['coverage']), '-n', str(case['ngram']),
+                                                           '-a', str(case['alphabet'])], stdin_mode='devnull')
+            run.ev('trainer_cli_runs')
+            p = os.path.join(sdir, 'Rules', nm)
+            if not to and os.path.exists(os.path.join(p, 'Grammar', 'grammar.txt')):
+                d = digest(p)
+                if d != digests['prefixhex']:
+                    diff = sorted(k for k in set(d) | set(digests['prefixhex']) if d.get(k) != digests['prefixhex'].get(k))
+                    run.violation(f'trainer.py --prefixcount gives a different ruleset than run_trainer with prefixcount=True on the same file: {diff[:5]}', case, observed=diff); return
+                run.ev('cli_prefixcount_trainings_identical')
+        finally:
+            os.remove(tf)
+            import shutil
+            shutil.rmtree(os.path.join(sdir, 'Rules', nm), ignore_errors=True)
     live = {m: d for m, d in digests.items() if d is not None}
     if len(live) >= 2:
         ref_mode = next(iter(live))
